@@ -36,6 +36,7 @@ type World struct {
 	trustedPure    map[string]bool
 	freshOverrides map[string]*freshOverride
 	macros         map[string]*Macro
+	curProp        string            // property being checked ("" in development mode: every clause)
 	specConsts     map[string]string // constant strings used by spec functions: content -> ref
 	specConstList  []string
 	mutated        map[string]bool // globals assigned outside init
